@@ -1,6 +1,6 @@
 ENGINES = [
-    {'name': 'simw', 'path': 'engine/simw', 'serves_properties': ['C01','C02','C06','C07','C08','C11','C13','C14'], 'kind_free_text': 'width-scaled recompilation of the real source (model immintrin.h + asm translated from its text), exhaustive over all operand values at w=2,4,8'},
-    {'name': 'lift64', 'path': 'harness', 'serves_properties': ['C01','C02','C11','C13','C14'], 'kind_free_text': 'exhaustive tuples over 64-bit boundary alphabets on the compiled library, closure over library-produced non-canonical values'},
+    {'name': 'simw', 'path': 'engine/simw', 'serves_properties': ['C01','C02','C06','C07','C08','C09','C10','C11','C13','C14'], 'kind_free_text': 'width-scaled recompilation of the real source (model immintrin.h + asm translated from its text), exhaustive over all operand values at w=2,4,8'},
+    {'name': 'lift64', 'path': 'harness', 'serves_properties': ['C01','C02','C06','C09','C10','C11','C13','C14','C15'], 'kind_free_text': 'exhaustive tuples over 64-bit boundary alphabets on the compiled library, closure over library-produced non-canonical values'},
 ]
 NOTES = 'All checks: bin/check <ID> --tier quick|thorough; rebuilds harnesses from /repo/src on every run; KNOWN_FINDINGS.txt lists recorded defects.'
 NOT_APPLICABLE = {}
@@ -80,4 +80,23 @@ CHECKS['C19'] = {
     'technique': 'explicit-state breadth-first search over call histories on the real object, canonical state key from private fields, differential (fresh object) + closed-form oracle per transition',
     'text': 'Starting from a freshly constructed object, every call of a 192-call alphabet (NTT/INTT/extendPol x sizes x columns x phases x blocks) is applied from every distinct canonical object state until a BFS level adds no new state; each transition output is compared with a fresh object and with the closed-form oracle; history replay must reproduce the recorded key. The object is destroyed after every explored history.',
     'note': 'Key completeness argument in DESIGN §4 C19: results depend on call arguments, constructor tables, (r,r_) and the process-wide default team size only. Objects D in {8 (16,4 thorough)}; larger domains follow the same code paths (C03-C05 cover sizes).',
+}
+
+CHECKS['C09'] = {
+    'engine': 'simw+lift64',
+    'technique': 'exhaustive enumeration of every operand in every representation of the width-scaled extension field (w=2: F_13^3) through the real source; bounded enumeration at w=4 and on the compiled code',
+    'text': 'At w=2 the base field is F_13 and x^3-x-1 stays irreducible, so the extension is a field of 2197 elements: add, sub, mul run on all 4096x4096 pairs of coefficient-triple representations in all aliasing forms, square/neg/inv/isOne on all elements, the mixed base/integer variants and div with every base representation, mulScalar with every decimal string in [-3p,3p], batchInverse on all 55,986 arrays of length 1..6 over a 6-element alphabet; at w=4 and natively the same operations run on boundary triples (native: 1728^2 pairs). Oracle: schoolbook product reduced by x^3=x+1.',
+    'note': 'Polynomial identities are width independent; the base-field operations they are built from are covered by C01 at 64 bits. Inverse of the zero element is not part of the statement.',
+}
+CHECKS['C10'] = {
+    'engine': 'simw+lift64',
+    'technique': 'exhaustive enumeration of all operands at w=2,4 through the real source; alphabet + continued-fraction-hard operands on the compiled code; zero operands in child processes; watchdog for termination',
+    'text': 'inv on every representation with a mod p != 0 (a*inv(a)=1), div on all (x,a), exp on all (b,e) in [0,2^2w)^2 plus 190 large exponents, for w=2 and 4 where p_w is prime; natively inv/div on the alphabet plus operands that maximise the length or the quotient size of the Euclid loop, exp on alphabet x 260 exponents; inv/div with 0 and p run in a child that must end with a diagnostic and no value; every worker has a watchdog that names the operand on a hang.',
+    'note': 'Termination for all 2^64 operands is argued from the strictly decreasing remainder of the Euclid loop; the watchdog only detects a violation on explored operands.',
+}
+CHECKS['C15'] = {
+    'engine': 'lift64',
+    'technique': 'exhaustive enumeration of all 2^32 int32 values (thorough) and of boundary neighbourhoods / k*p+r integers x all radices against GMP',
+    'text': 'Every int32 goes through fromS32 and toS32 (thorough; quick uses +-4096 neighbourhoods of the four corners and +-2^k); all outward conversions and predicates run on ~80k raw representations around every threshold in the code (0, 2^31, p-2^31, (p-1)/2, p, 2^63, 2^64); 500 integers k*p+r with |k| up to 2^65 are converted as strings in every radix 2..36 and as mpz; oracle is GMP with floor modulus.',
+    'note': 'int64/uint64 conversions are checked on the alphabet and neighbourhoods, not on all 2^64 values; their code has a single comparison each, whose both sides and boundary are in the set.',
 }
